@@ -345,6 +345,30 @@ func init() {
 			map[string]interface{}{"program_seed": res.fc.Seed, "mro": res.prog.Print(), "key_pool": res.fc.Cfg.KeyPool})
 	}
 	flowExtra["C11"] = func(c *vf.Ctx, res *flowResult) {
+		// attempts of one job are distinct identities: a retried job must get
+		// a metadata directory (and with it a journal name) of its own
+		retried := 0
+		for _, j := range res.obs.Jobs {
+			seen := map[string]int{}
+			for _, st := range j.Starts {
+				seen[st.Meta]++
+			}
+			if len(j.Starts) > 1 {
+				retried++
+			}
+			for meta, n := range seen {
+				if n > 1 {
+					c.Violate("C11:e2e:attempt-identity-reused:"+j.Phase,
+						fmt.Sprintf("job %s was executed %d times in the same metadata directory %s: a later attempt shares directory and journal name with the attempt it replaces", j.ID, n, meta),
+						map[string]interface{}{"program_seed": res.fc.Seed, "mro": res.prog.Print(), "rules": res.fc.Rules})
+					break
+				}
+			}
+		}
+		c.Count("retried_jobs_checked_for_distinct_attempt_identity", int64(retried))
+		if len(res.fc.Rules) > 0 {
+			return // runs with injected transient failures: only the identity check applies
+		}
 		// any dataflow / exactly-once finding in these otherwise safe-shape runs is a misattribution
 		for _, f := range res.report.Findings {
 			if (f.Prop == "C01" || f.Prop == "C03") && !strings.Contains(f.Sig, "indep") && !strings.Contains(f.Sig, "unresolved-merge") {
@@ -393,6 +417,13 @@ func init() {
 				seed := c.Seed*1000003 + 2500000 + int64(i)
 				cases = append(cases, &flowCase{Index: i, Seed: seed, Cfg: cfg, Vdr: []string{"disable", "rolling"}[i%2], Timeout: 60e9,
 					Tweak: func(s *pgen.Spec) { s.LenChoices = []int{0, 1, 2, 9, 10, 11} }})
+				if i%4 == 2 {
+					// every main job dies once from a signal and is retried in-process
+					fc := cases[len(cases)-1]
+					fc.AutoRetry = 3
+					fc.Rules = []pgen.Rule{{Phase: "main", Attempt: 1, Fail: []string{"kill9", "kill_mrjob"}[(i/4)%2]}}
+					fc.Tweak = func(s *pgen.Spec) { s.LenChoices = []int{1, 2, 3} }
+				}
 			}
 			return cases
 		},
